@@ -23,7 +23,7 @@ from mininec.mininec import main, Mininec, Angle
 
 PID = 'C05'
 ROTS = [(0, 0, 33.0), (90.0, 0, 0), (0, -71.0, 0), (33.0, -71.0, 123.0), (10.0, 20.0, 0), (0, 45.0, -30.0), (180.0, 0, 90.0)]
-ZROTS = [(0, 0, 33.0), (0, 0, -120.0), (0, 0, 200.0)]
+ZROTS = [(0, 0, 33.0), (0, 0, -120.0), (0, 0, 200.0), (0, 0, 90.0), (0, 0, -90.0), (0, 0, 180.0), (0, 0, 45.0)]
 TRAS = [(1.5, -2.25, 0.75), (0, 0, 40.0), (100.0, -300.0, 7.0), (-0.3, 0, 0), (650.0, 0, 0), (-40.0, 900.0, 0.5)]
 HTRAS = [(1.5, -2.25, 0), (100.0, -300.0, 0), (-0.3, 0, 0), (650.0, 0, 0), (-40.0, 900.0, 0)]
 SCLS = [0.01, 0.37, 37.0, 100.0, 2.5]
@@ -41,6 +41,9 @@ PHYS_FREE = ['-w', '1,4,0,0,10,3.0,0,10.6,0.002', '-w', '2,3,3.0,0,10.6,3.2,2.1,
 PHYS_GND = ['-w', '1,4,0,0,0,0.9,0,3.1,0.002', '-w', '2,3,0.9,0,3.1,3.3,0.8,3.3,0.002',
             '-w', '3,3,5,5,1.2,5.5,7.2,2.0,0.0015', '-w', '4,3,5.5,7.204,2.0,5.5,9.0,2.4,0.0015',
             '--medium=0,0,0', '--excitation-pulse=1,1', '--load=30+20j', '--attach-load=1,1,2']
+# the same antenna with its grounded sloping wire on the diagonal x = y: quarter and half turns put it on the other
+# diagonals and keep |dx| = |dy| exactly (sign and zero tests on direction components live there)
+PHYS_GND2 = ['-w', '1,4,0,0,0,0.9,0.9,3.1,0.002', '-w', '2,3,0.9,0.9,3.1,3.3,0.8,3.3,0.002'] + PHYS_GND[4:]
 F0 = 21.2
 
 
@@ -149,7 +152,7 @@ def tol_for(cond):
 def physics_check(rec, rnd, ground):
     """(ii) for whole-structure programs"""
     bad = []
-    base = PHYS_GND if ground else PHYS_FREE
+    base = rnd.choice([PHYS_GND, PHYS_GND2]) if ground else PHYS_FREE
     argv, params = concretise(rec, rnd, ground=ground)
     ids = rec['maps'][0]
     s_tot = float(np.prod([params[i][1] for i in ids if params[i][0] == 'S'])) if ids else 1.0
